@@ -34,7 +34,7 @@ def diff_paths(a, b, path=()):
 
 
 AST_LEAF = {"line": {"C04"}, "col": {"C04"}, "id": {"C11"}, "kw": {"C05", "C03"}, "kwt": {"C05"}, "lang": {"C05"}, "name": {"C03"},
-            "text": {"C03"}, "desc": {"C03"}, "value": {"C12", "C03"}, "content": {"C13"}, "delim": {"C13"}, "media": {"C13"}, "t": {"C03", "C02"}}
+            "text": {"C03"}, "desc": {"C03"}, "value": {"C12", "C03"}, "content": {"C13", "C03"}, "delim": {"C13"}, "media": {"C13"}, "t": {"C03", "C02"}}
 
 
 def owners_ast(spec, impl) -> set[str]:
